@@ -15,6 +15,9 @@ def main():
         ok, msg = build.build_harness()
         if not ok:
             print(msg); print("harness build failed"); return 1
+        ok, msg = build.build_racestress()
+        if not ok:
+            print(msg); print("racestress build failed"); return 1
     print("setup ok: lean modules %s, driver, harness" % ", ".join(mods))
     return 0
 
